@@ -1015,6 +1015,21 @@ class FuncAnalysis:
             li.carried[cn] = (init, step)
             li.names[cn] = name
             new_env[name] = ('after', li.id, cn, init, step, brk)
+            # a plain loop variable after a loop over a literal list is the last element of the list
+            # (also through a conditional iterable: [x] if c else xs)
+            if li.kind == 'for' and name in li.targets and not li.has_break and name not in _assigned_in(s.body) \
+                    and li.targets[name] == mk_elem(li.iter, li.id, ()):
+                def last(it, dflt):
+                    if it[0] in ('list', 'tuple') and it[1] and it[1][-1][0] != 'star':
+                        return it[1][-1]
+                    if it[0] == 'ite':
+                        a, b = last(it[2], dflt), last(it[3], dflt)
+                        if a is not None or b is not None:
+                            return T.ite(it[1], a if a is not None else dflt, b if b is not None else dflt)
+                    return None
+                lv = last(li.iter, new_env[name])
+                if lv is not None:
+                    new_env[name] = lv
         self.env = new_env
         if s.orelse:
             li.has_else = True
@@ -1147,6 +1162,21 @@ class FuncAnalysis:
             li.carried[cn] = (init, step)
             li.names[cn] = name
             new_env[name] = ('after', li.id, cn, init, step, brk)
+            # a plain loop variable after a loop over a literal list is the last element of the list
+            # (also through a conditional iterable: [x] if c else xs)
+            if li.kind == 'for' and name in li.targets and not li.has_break and name not in _assigned_in(s.body) \
+                    and li.targets[name] == mk_elem(li.iter, li.id, ()):
+                def last(it, dflt):
+                    if it[0] in ('list', 'tuple') and it[1] and it[1][-1][0] != 'star':
+                        return it[1][-1]
+                    if it[0] == 'ite':
+                        a, b = last(it[2], dflt), last(it[3], dflt)
+                        if a is not None or b is not None:
+                            return T.ite(it[1], a if a is not None else dflt, b if b is not None else dflt)
+                    return None
+                lv = last(li.iter, new_env[name])
+                if lv is not None:
+                    new_env[name] = lv
         self.env = new_env
         if s.orelse:
             li.has_else = True
